@@ -399,6 +399,8 @@ def rule_parked(ctx, rep):
 
 META["explanation"] += " " + 'Also (rounds 10-11): wake-up order of the helper / completion futex (reset before FUTEX_WAKE), and after the caller is put back online rcu_barrier reaches no mutex lock, poll or futex wait.'
 
+META["explanation"] += " " + 'Also (round 12): fork-child rebuild of helpers (shared from C16); urcu_ref never attempts its CAS from a limit value.'
+
 RULES = [
     ("C04.cs", rule_cs),
     ("C04.cs", rule_listcs),
